@@ -3,7 +3,7 @@
    (they show that neither window flag of W_C08 can be dropped).  Everything here is by vm_compute. *)
 From Coq Require Import List ZArith NArith Bool.
 From PC.Base Require Import Assoc.
-From PC.Sup Require Import Model Monitors Sim RelC08 SpecC08.
+From PC.Sup Require Import Model Monitors Sim RelC08 RelC08b SpecC08.
 Import ListNotations.
 Open Scope N_scope.
 
@@ -148,3 +148,35 @@ Lemma C08_one_live_lemma : forall cs ord evs s,
   accept (init cs ord) evs = Some s ->
   w_dup (final_obs cs evs) = false -> w_zombie (final_obs cs evs) = false -> one_live evs.
 Proof. intros cs ord evs s Hacc Hd Hz. eapply holds_C08_one_live, C08_main_flags_lemma; eauto. Qed.
+
+(* ---- the second theorem (no stop of a Pending process instead of the zombie window) ------------------ *)
+(* RestartProcess(1) on a running instance: the successor 101 is created as soon as the old instance has
+   written Completed, while the old goroutine is still on its way to inst_exit (zombie window), and the
+   old goroutine finishes after the successor was launched *)
+Definition life_a (th : tid) (i : iid) (c : Z) : list (tid * event) :=
+  [(th, EWaitReturn c); (th, EExitCode c); (th, ERestartDecision false); (th, EProcEnd i SCompleted);
+   (th, EState i SCompleted); (th, EProcEnded i SCompleted)].
+Definition life_b (th : tid) (i : iid) (c : Z) : list (tid * event) :=
+  [(th, ERunReturned c); (th, EDoneAdd i); (th, EInstDone); (th, EInstExit); (th, EWgDone); (th, EInstGone)].
+Definition ex_restart : list (tid * event) :=
+  [(1, EApiBegin OpRun)] ++ mk 1 100 1 ++ [(1, ERunSpawned)] ++ boot 20 100 ++
+  [(14, EApiBegin (OpRestart 1)); (14, ERegGet 1 (Some 100)); (14, ERestartChecked 1 (Some 100))] ++ stop_run 14 100 0 ++
+  life_a 20 100 0 ++
+  [(14, ERestartStopped 1)] ++ mk 14 101 1 ++ [(14, EApiReturn true)] ++ boot 21 101 ++ life_b 20 100 0.
+
+Lemma ex_restart_ok :
+  length ex_restart = 44%nat /\
+  (exists s, accept (init cs_plain false) ex_restart = Some s) /\
+  w_dup (final_obs cs_plain ex_restart) = false /\ w_zombie (final_obs cs_plain ex_restart) = true /\
+  no_stop_pending ex_restart = true /\ holds_C08 cs_plain ex_restart = true.
+Proof. split; [reflexivity|]. split; [accepted|]. repeat split; vm_compute; reflexivity. Qed.
+
+(* the disjunction "outside the zombie window, or no stop of a Pending process" cannot be dropped *)
+Lemma C08_combined_tight_lemma : exists cs ord evs s, accept (init cs ord) evs = Some s /\
+  w_dup (final_obs cs evs) = false /\ holds_C08 cs evs = false.
+Proof. exact C08_zombie_needed_lemma. Qed.
+
+Lemma C08_one_live_combined_lemma : forall cs ord evs s,
+  accept (init cs ord) evs = Some s -> w_dup (final_obs cs evs) = false ->
+  w_zombie (final_obs cs evs) = false \/ no_stop_pending evs = true -> one_live evs.
+Proof. intros cs ord evs s Hacc Hd Hor. eapply holds_C08_one_live, C08_combined_lemma; eauto. Qed.
